@@ -58,10 +58,28 @@ def normal_matrix(draw, n):
 @st.composite
 def systems(draw, tier, nmax=None):
     n = draw(st.integers(1, nmax or (6 if tier == "quick" else 8)))
-    cls = draw(st.sampled_from(["normal", "normal", "normal", "svals", "triangular", "identity_plus_lowrank"]))
+    cls = draw(st.sampled_from(["normal", "normal", "normal", "svals", "triangular", "identity_plus_lowrank", "zero_diagonal"]))
     Uf = d = None
     exact = False
-    if cls == "normal":
+    if cls == "zero_diagonal" and n >= 2:
+        # exactly zero diagonal entries: a cyclic shift / permutation with unit-quaternion entries (unitary), optionally
+        # plus a small strictly off-diagonal part - with b = q e_k the first Arnoldi coefficient v^H A v is exactly 0
+        perm = list(range(1, n)) + [0] if draw(st.booleans()) else list(draw(st.permutations(list(range(n)))))
+        if any(perm[i] == i for i in range(n)):
+            perm = list(range(1, n)) + [0]
+        A = np.zeros((n, n, 4))
+        for i in range(n):
+            A[i, perm[i]] = draw(gen.unit_q(exact=True)) * draw(st.sampled_from([1.0, 1.0, 2.0]))
+        if draw(st.booleans()):
+            Eo = draw(gen.qmat(n, n, patterns=("generic", "int"))) / 32.0
+            for i in range(n):
+                Eo[i, i] = 0.0
+            A = A + Eo
+        clsA = "zero_diagonal"
+    elif cls == "zero_diagonal":
+        A = ref.qeye(n) * 2.0
+        clsA = "identity"
+    elif cls == "normal":
         A, Uf, d, kind, exact = draw(normal_matrix(n))
         clsA = "normal:" + kind
     elif cls == "svals":
@@ -86,6 +104,8 @@ def systems(draw, tier, nmax=None):
         clsA = "identity_plus_lowrank"
     # right-hand side
     opts = ["generic", "generic", "sparse_support", "zero"]
+    if clsA == "zero_diagonal":
+        opts += ["sparse_support"] * 4
     if Uf is not None:
         opts += ["eigvec", "eigvec", "grade_g", "grade_g"]
     clsb = draw(st.sampled_from(opts))
